@@ -14,9 +14,11 @@ import (
 	"google.golang.org/grpc/metadata"
 
 	"github.com/kubewharf/kubebrain/pkg/backend"
+	"github.com/kubewharf/kubebrain/pkg/metrics"
 	"github.com/kubewharf/kubebrain/pkg/metrics/prometheus"
 	"github.com/kubewharf/kubebrain/pkg/server/brain"
 	"github.com/kubewharf/kubebrain/pkg/server/etcd"
+	smetrics "github.com/kubewharf/kubebrain/pkg/storage/metrics"
 	"github.com/kubewharf/kubebrain/pkg/zzmodel"
 	"github.com/kubewharf/kubebrain/pkg/zzsrv"
 	"github.com/kubewharf/kubebrain/pkg/zzverif"
@@ -79,7 +81,7 @@ func (w *world) request(tag string) {
 	ctx := context.Background()
 	k := key(tag + ".key")
 	rev := zzverif.I64(tag + ".rev")
-	switch zzverif.Choose(tag+".handler", 14) {
+	switch zzverif.Choose(tag+".handler", zzverif.Param("handlers", 15)) {
 	case 0:
 		w.bs.Create(ctx, &proto.CreateRequest{Key: k, Value: key(tag + ".val")})
 	case 1:
@@ -151,6 +153,22 @@ func (w *world) request(tag string) {
 			r.RangeEnd, r.CountOnly = key(tag+".end"), true
 		}
 		w.es.Range(ctx, r)
+	case 14:
+		// the lease and cluster handlers of the etcd API (answered without touching the backend)
+		switch zzverif.Choose(tag+".misc", 6) {
+		case 0:
+			w.es.LeaseGrant(ctx, &etcdserverpb.LeaseGrantRequest{TTL: rev, ID: zzverif.I64(tag + ".lease")})
+		case 1:
+			w.es.LeaseRevoke(ctx, &etcdserverpb.LeaseRevokeRequest{ID: rev})
+		case 2:
+			w.es.LeaseKeepAlive(nil)
+		case 3:
+			w.es.LeaseTimeToLive(ctx, &etcdserverpb.LeaseTimeToLiveRequest{ID: rev})
+		case 4:
+			w.es.LeaseLeases(ctx, &etcdserverpb.LeaseLeasesRequest{})
+		default:
+			w.es.MemberList(ctx, &etcdserverpb.MemberListRequest{})
+		}
 	default:
 		wctx, cancel := context.WithCancel(ctx)
 		if zzverif.Choose(tag+".goneBefore", 2) == 1 {
@@ -168,17 +186,24 @@ func (w *world) request(tag string) {
 // VerifC20NoCrash: arbitrary request contents through either API, with production metrics
 // enabled: no panic (including inside metric emission) and the node keeps serving.
 func VerifC20NoCrash() {
-	st := zzmodel.NewStore()
 	m := prometheus.NewMetrics()
+	// the production stack: the engine behind the storage metrics wrapper (cmd/option)
+	st := smetrics.NewKvStorage(zzmodel.NewStore(), m)
 	be := backend.NewBackend(st, backend.Config{Prefix: "/r", EnableEtcdCompatibility: true, WatchCacheSize: 4}, m)
 	be.SetCurrentRevision(5)
 	peers := &zzsrv.Peers{Leader: true}
 	w := &world{be: be, bs: brain.New(be, m, peers), es: etcd.New(be, m, peers)}
 	n := zzverif.Param("requests", 1)
 	for i := 0; i < n; i++ {
+		if zzverif.Param("roles", 0) == 1 {
+			// the request may arrive while the node is a follower (with or without the etcd proxy)
+			peers.Leader = zzverif.Choose("q"+string(rune('0'+i))+".follower", 2) == 0
+			peers.Proxy = !peers.Leader && zzverif.Choose("q"+string(rune('0'+i))+".proxy", 2) == 1
+		}
 		w.request("q" + string(rune('0'+i)))
 		zzverif.WaitIdle()
 	}
+	peers.Leader = true
 	// the node keeps serving: a create followed by a get on a fresh key works
 	// ... and a new watch is registered and sees that create
 	fresh := []byte("/r/fresh")
@@ -202,4 +227,30 @@ func VerifC20NoCrash() {
 	g, err := w.bs.Get(context.Background(), &proto.GetRequest{Key: fresh})
 	zzverif.Assert(err == nil && g.Kv != nil && string(g.Kv.Value) == "v", "a later read is answered correctly")
 	zzverif.Cover("done")
+}
+
+// VerifC20EmitReplay (native replays only): emits the given metrics — kind, name and label names
+// taken from the replay file — through the real prometheus wrapper in one process; a metric name
+// emitted with two different sets of label names (or as two kinds) panics inside client_golang.
+func VerifC20EmitReplay() {
+	m := prometheus.NewMetrics()
+	n := int(zzverif.U64("n"))
+	for i := 0; i < n; i++ {
+		tag := "e" + string(rune('0'+i))
+		name := string(zzverif.Bytes(tag+".name", int(zzverif.U64(tag+".name.len"))))
+		var tags []metrics.T
+		nl := int(zzverif.U64(tag + ".labels"))
+		for j := 0; j < nl; j++ {
+			lt := tag + ".l" + string(rune('0'+j))
+			tags = append(tags, metrics.Tag(string(zzverif.Bytes(lt, int(zzverif.U64(lt+".len")))), "x"))
+		}
+		switch zzverif.U64(tag + ".kind") {
+		case 0:
+			m.EmitCounter(name, 1, tags...)
+		case 1:
+			m.EmitGauge(name, 1, tags...)
+		default:
+			m.EmitHistogram(name, 1, tags...)
+		}
+	}
 }
